@@ -39,6 +39,9 @@ def plan(tier, seed):
     specs.append({"klass": "comments", "i": 0})
     for k, f in enumerate(classes.corpus(env.REPO, big=(tier == "thorough"))):
         specs.append({"klass": "corpus", "i": k, "file": os.path.relpath(f, env.REPO), "soft_timeout": 600})
+    for k in range(12 if tier == "quick" else 120):
+        # a helper definition repeated verbatim in two components
+        specs.append({"klass": "repeated_helper_definition", "i": 9000 + k, "repeat_helper": True})
     n = 220 if tier == "quick" else 3000
     for k in range(n):
         specs.append({"klass": "random", "i": k, "fill": True})
@@ -79,6 +82,10 @@ def case_text(spec, rng):
         return "# one\n# two words\n" + classes.packed_model(["a * 2", "b - c"]) + "# trailing comment\n"
     if k == "corpus":
         return open(os.path.join(env.REPO, spec["file"])).read()
+    if spec.get("repeat_helper"):
+        ms = models.gen_model(rng, Profile(hard_lits=False, mod=False), depth=2, n_comp=rng.choice([2, 3]), n_states=rng.choice([2, 3, 4]))
+        models.repeat_helper(ms)
+        return ms.render(rng)
     return models.gen_model(rng, Profile(), depth=rng.choice([2, 3])).render(rng)
 
 
